@@ -183,6 +183,11 @@ inline void randomHistory(Ctx& c, long idx)
     for (size_t i = 0; i < k; ++i)
     {
         Ep e{pickDevice(r), pickStream(r), r.chance(1, 3) ? static_cast<uint16_t>(r.range(65500, 65535)) : static_cast<uint16_t>(r.next())};
+        if (idx % 4 == 3)
+        {
+            e.dev = static_cast<uint16_t>(r.next());
+            e.stream = r.byte();
+        }
         e.ver = static_cast<uint8_t>(r.range(1, 3));
         e.mt = r.chance(1, 4) ? wire::MT_STATUS : wire::MT_DATA;
         eps.push_back(e);
@@ -360,9 +365,26 @@ inline void randomCase(Ctx& c, long idx)
     c05::History h;
     size_t k = r.range(2, 5);
     std::vector<std::pair<uint16_t, uint8_t>> eps;
+    const bool wideIds = r.chance(1, 4);
     while (eps.size() < k)
     {
         std::pair<uint16_t, uint8_t> e{pickDevice(r), pickStream(r)};
+        if (wideIds)
+        {
+            if (!eps.empty() && r.chance(1, 2))
+            {
+                e = eps[r.below(eps.size())];
+                if (r.chance(1, 2))
+                    e.first = static_cast<uint16_t>(e.first ^ (1u << r.below(16)));
+                else
+                {
+                    e.first = static_cast<uint16_t>(e.first + 1);
+                    e.second = static_cast<uint8_t>(e.second - 1);  // "crossed" ids: lower device, higher stream
+                }
+            }
+            else
+                e = {static_cast<uint16_t>(r.next()), r.byte()};
+        }
         if (std::find(eps.begin(), eps.end(), e) == eps.end())
             eps.push_back(e);
     }
